@@ -109,6 +109,27 @@ Proof. unfold unindex_rule. destruct (rule_patterns rule); reflexivity. Qed.
 Lemma kind_unindex_rule s id rule : st_kind (unindex_rule s id rule) = st_kind s.
 Proof. unfold unindex_rule. destruct (rule_patterns rule); reflexivity. Qed.
 
+(** * The targets of deleteDependencies: the candidates that name the id *)
+
+Lemma dw_targets_In s id ids j :
+  In j (dw_targets s id ids) <->
+  In j ids /\ exists fact, alookup j (st_facts s) = Some fact /\ dw_names fact id = true.
+Proof.
+  unfold dw_targets. rewrite filter_In. split.
+  - intros [H1 H2]. split; [exact H1|].
+    destruct (alookup j (st_facts s)) as [fact|]; [eauto|discriminate].
+  - intros [H1 (fact & H2 & H3)]. split; [exact H1|]. rewrite H2. exact H3.
+Qed.
+
+Lemma dw_targets_sub s id ids j : In j (dw_targets s id ids) -> In j ids.
+Proof. intros H. apply dw_targets_In in H. apply H. Qed.
+
+Lemma skipped_Some x j : skipped (Some x) j = String.eqb j x.
+Proof. reflexivity. Qed.
+
+Lemma skipped_None j : skipped None j = false.
+Proof. reflexivity. Qed.
+
 (** * The matcher on {"deleteWith":[x]} *)
 
 Lemma split_array_In y : forall l i fxs fxa,
@@ -266,4 +287,73 @@ Proof.
   rewrite match_body_arr_nonvar by exact Hx.
   destruct fv; try reflexivity.
   destruct (mem_json (JStr x) l); reflexivity.
+Qed.
+
+(** * Any id, variable-looking or not: a fact that names the id literally is
+      found by the search (the variable matches every element of a non-empty
+      deleteWith), so the literal check after the search loses nothing. *)
+
+Lemma match_body_str_nil_hit rec x d :
+  is_var x = true -> exists b r, match_body rec (JStr x) d [] = Ok (b :: r).
+Proof.
+  intros Hx. unfold match_body. rewrite Hx. cbn [negb].
+  destruct (is_anon x); [eauto|].
+  unfold inequal. cbn [alookup]. eauto.
+Qed.
+
+Lemma arraycat_one_str_hit rec x all :
+  (forall d, exists b r, rec (JStr x) d [] = Ok (b :: r)) ->
+  forall todo pos, todo <> [] ->
+    exists a0 a, arraycat_one rec [[]] (JStr x) all todo pos = Ok (a0 :: a) /\ fst a0 <> [].
+Proof.
+  intros Hrec [|[j fact] todo] pos Hne; [congruence|].
+  cbn [arraycat_one match_all]. destruct (Hrec fact) as (b & r & Hr). rewrite Hr. cbn [obind].
+  destruct (arraycat_one_str_ok rec x all) with (todo := todo) (pos := S pos) as [a Ha].
+  { intros d. destruct (Hrec d) as (b' & r' & H). eauto. }
+  rewrite Ha. cbn [obind app]. eexists _, _. split; [reflexivity|]. cbn [fst]. discriminate.
+Qed.
+
+Lemma match_body_arr_var_hit rec x l :
+  is_var x = true -> mem_json (JStr x) l = true ->
+  (forall d, exists b r, rec (JStr x) d [] = Ok (b :: r)) ->
+  exists b r, match_body rec (JArr [JStr x]) (JArr l) [] = Ok (b :: r).
+Proof.
+  intros Hx Hm Hrec. unfold match_body. cbn [get_variable]. rewrite Hx.
+  cbn [String.eqb get_variable obind rev].
+  pose proof (split_array_mem_scalar (JStr x) l eq_refl) as Hs. rewrite Hm in Hs.
+  destruct (split_array 0 l [] []) as [fxs fxa]. cbn [fst] in Hs.
+  cbn [array_elems obind map fst snd].
+  destruct (String.eqb x "") eqn:E.
+  { cbn. eauto. }
+  cbn [arraycat].
+  assert (Hall : (fxa ++ combine_extra (length l) fxs)%list <> []).
+  { destruct fxs as [|y fxs]; [cbn in Hs; discriminate|].
+    unfold combine_extra. cbn [length seq List.combine].
+    intros H. apply app_eq_nil in H. destruct H as [_ H]. discriminate. }
+  destruct (arraycat_one_str_hit rec x (fxa ++ combine_extra (length l) fxs)%list Hrec
+              (fxa ++ combine_extra (length l) fxs)%list 0%nat Hall) as (a0 & a & Ha & Hne).
+  match goal with |- context [arraycat_one ?r ?b ?p ?al ?td ?ps] =>
+    remember (arraycat_one r b p al td ps) as o eqn:Eo end.
+  assert (Ho : o = Ok (a0 :: a)) by (subst o; exact Ha). rewrite Ho. cbn [obind app].
+  unfold combine. cbn [map concat]. destruct (fst a0) as [|b r]; [congruence|].
+  cbn [app]. eauto.
+Qed.
+
+Lemma dw_names_hit x fact : dw_names fact x = true -> dw_hit x fact = true.
+Proof.
+  intros Hn. destruct (is_var x) eqn:Hx; [|rewrite dw_hit_names by exact Hx; exact Hn].
+  unfold dw_hit, core_match.
+  destruct (match_fuel_ge (dw_pattern x) fact []) as [f ->].
+  change (jmatch (S (S (S f))) (dw_pattern x) fact [])
+    with (match_body (jmatch (S (S f))) (dw_pattern x) fact []).
+  rewrite match_body_dw. unfold dw_names, jget in Hn.
+  destruct fact; try discriminate.
+  destruct (alookup "deleteWith" kvs) as [fv|]; [|discriminate].
+  destruct fv; try discriminate.
+  change (jmatch (S (S f)) (JArr [JStr x]) (JArr l) [])
+    with (match_body (jmatch (S f)) (JArr [JStr x]) (JArr l) []).
+  destruct (match_body_arr_var_hit (jmatch (S f)) x l Hx Hn) as (b & r & Hr).
+  { intros d. change (jmatch (S f) (JStr x) d []) with (match_body (jmatch f) (JStr x) d []).
+    apply match_body_str_nil_hit. exact Hx. }
+  rewrite Hr. reflexivity.
 Qed.
